@@ -218,11 +218,11 @@ PERTURB = ('to_positions', 'to_displacements', 'read_positions', 'read_displacem
 QUERIES = (
     'cumulative_displacements', 'distances_from_base_position', 'mean_squared_displacement', 'drift', 'drift_fixed', 'get_lattice',
     'total_time', 'speed', 'tracer_diffusivity', 'vibration_amplitude', 'attempt_frequency', 'particle_density', 'haven_ratio',
-    'to_volume', 'transitions', 'rdf', 'get_structure', 'len_species', 'center_of_mass_q', 'iterate',
+    'to_volume', 'transitions', 'rdf', 'get_structure', 'len_species', 'center_of_mass_q', 'iterate', 'drift_floating',
 )
 DISPLACEMENT_BASED = {
     'cumulative_displacements', 'distances_from_base_position', 'mean_squared_displacement', 'drift', 'drift_fixed', 'speed', 'tracer_diffusivity',
-    'vibration_amplitude', 'attempt_frequency', 'haven_ratio', 'center_of_mass_q',
+    'vibration_amplitude', 'attempt_frequency', 'haven_ratio', 'center_of_mass_q', 'drift_floating',
 }
 DERIVE = ('filter', 'slice', 'listidx', 'intidx', 'split', 'drift_correct', 'center_of_mass', 'hold_transitions')
 
@@ -270,7 +270,7 @@ def generate(run_seed: int, tier: str = 'quick', stream: str = 'seq') -> dict:
                 op['i'] = rint(-nf, nf - 1)
             elif q in ('tracer_diffusivity', 'haven_ratio'):
                 op['dim'] = rng.pick([1, 2, 3])
-            elif q == 'drift_fixed':
+            elif q in ('drift_fixed', 'drift_floating'):
                 op['s'] = rng.randrange(3)
             ops.append(op)
         elif kind == 'DERIVE':
@@ -610,6 +610,8 @@ class Run:
             return T.drift()
         if q == 'drift_fixed':
             return T.drift(fixed_species=self.sym(op.get('s', 0)))
+        if q == 'drift_floating':
+            return T.drift(floating_species=self.sym(op.get('s', 0)))
         if q == 'get_lattice':
             return np.array(T.get_lattice().matrix)
         if q == 'total_time':
@@ -659,7 +661,7 @@ class Run:
         amax = float(np.abs(M['lattice']).sum())
         return {
             'cumulative_displacements': (0, 1e-9), 'distances_from_base_position': (0, 1e-9 * amax), 'mean_squared_displacement': (1e-9, 1e-8 * amax * amax),
-            'drift': (0, 1e-9), 'drift_fixed': (0, 1e-9), 'get_lattice': (0, 1e-12), 'total_time': (1e-12, 0), 'speed': (0, 1e-9 * amax),
+            'drift': (0, 1e-9), 'drift_fixed': (0, 1e-9), 'drift_floating': (0, 1e-9), 'get_lattice': (0, 1e-12), 'total_time': (1e-12, 0), 'speed': (0, 1e-9 * amax),
             'particle_density': (1e-12, 0), 'get_structure': (0, 1e-9), 'len_species': (0, 0), 'center_of_mass_q': (0, 1e-9), 'iterate': (0, 1e-9),
         }.get(q, (1e-6, 0.0))
 
@@ -669,7 +671,7 @@ class Run:
             return self.trace.log(ev='QUERY', step=self.step, q=op['q'], skipped='no object')
         q = op['q']
         M = e.M
-        if 'X' in M['symbols'] and q in ('drift_fixed', 'transitions', 'rdf', 'haven_ratio', 'center_of_mass_q'):
+        if 'X' in M['symbols'] and q in ('drift_fixed', 'drift_floating', 'transitions', 'rdf', 'haven_ratio', 'center_of_mass_q'):
             return self.trace.log(ev='QUERY', step=self.step, q=q, skipped='dummy species')
         if q == 'haven_ratio' and not e.amb:
             try:
